@@ -162,7 +162,7 @@ func c19Client(c *Ctx, r *Report, ci *clientInfo, control bool) map[string]bool 
 	parse := ci.dynCalls(tf, ci.parse)
 	var doCall *CallRec
 	for _, cr := range ci.an.calls {
-		if cr.frame == tf && cr.callee == ci.do {
+		if ci.inTop(cr) && cr.callee == ci.do {
 			doCall = cr
 		}
 	}
